@@ -3,10 +3,11 @@
    the .ml lands there. *)
 From Coq Require Import Extraction ExtrOcamlBasic.
 From Coq Require Import List NArith.
-From FsDb Require Import VList VListRun Codec.
+From FsDb Require Import VList VListRun Codec Core.
 
 Extraction Language OCaml.
 
 Extraction "fsdb_model.ml"
   VListRun.vrun VListRun.vrun_spec
+  Core.m_init Core.mstep Core.sort_keys
   Codec.run_marshal Codec.run_unmarshal Codec.uuid_format Codec.uuid_parse.
